@@ -476,7 +476,7 @@ def finish(ctx, level_note='', assumptions=(), extra_cov=None):
                                   'correspondence_breaks': getattr(ctx, 'corr_breaks', []), 'notes': ctx.notes[-3:]})
         ctx.violations.append({'clause': ctx.unshown[0], 'replay': path, 'nofail': True})
     for k in ctx.known:
-        f = [x for x in ctx.findings if x['id'] == k['id']][0]
+        f = [x for x in ctx.findings if x.get('id') == k['id']][0]
         print('KNOWN-FINDING: property=%s %s' % (prop, f['what']))
     for v in ctx.violations:
         # the reason first (the harness that runs the checks keeps stdout), then the line of the interface
